@@ -365,26 +365,40 @@ const defaultLoopBound = 64
 
 // jump transfers control to block b, evaluating phis.
 func (s *State) jump(t *Thread, fr *Frame, b *ssa.BasicBlock) {
-	// loop bound on back edges
+	// loop bound on back edges: iterations that took a symbolic decision count against the
+	// unwinding bound; purely concrete iterations only against a large divergence bound
 	if b.Index <= fr.block.Index {
 		if fr.visits == nil {
 			fr.visits = map[int]int{}
 			fr.symAtLoop = map[int]int{}
 		}
-		n := fr.visits[b.Index]
-		if n == 0 {
-			fr.symAtLoop[b.Index] = t.symBr
-		}
-		fr.visits[b.Index] = n + 1
-		bound := s.opts.LoopBound
-		if n+1 > bound {
-			if fr.symAtLoop[b.Index] == t.symBr && !s.othersRunnable(t) {
-				s.finish("DIVERGE", fmt.Sprintf("loop in %s (block %d) ran %d iterations with concrete conditions and no other runnable thread", fr.fn, b.Index, n))
-			} else {
-				s.finish("UNWIND", fmt.Sprintf("loop bound %d hit in %s block %d", bound, fr.fn, b.Index))
+		const concBase = 1 << 20
+		if last, ok := fr.symAtLoop[b.Index]; ok && last == t.symBr {
+			c := fr.visits[b.Index+concBase] + 1
+			fr.visits[b.Index+concBase] = c
+			if c > s.eng.divergeBound {
+				if !s.othersRunnable(t) {
+					s.finish("DIVERGE", fmt.Sprintf("loop in %s (block %d) ran %d iterations with concrete conditions and no other runnable thread", fr.fn, b.Index, c))
+				} else {
+					s.finish("UNWIND", fmt.Sprintf("concrete loop bound %d hit in %s block %d", c, fr.fn, b.Index))
+				}
+				return
 			}
-			return
+		} else {
+			n := fr.visits[b.Index] + 1
+			fr.visits[b.Index] = n
+			fr.visits[b.Index+concBase] = 0
+			for k := range fr.visits { // re-entering an outer header resets the inner loops' counts
+				if k > b.Index && k < concBase {
+					delete(fr.visits, k)
+				}
+			}
+			if n > s.opts.LoopBound {
+				s.finish("UNWIND", fmt.Sprintf("loop bound %d hit in %s block %d", s.opts.LoopBound, fr.fn, b.Index))
+				return
+			}
 		}
+		fr.symAtLoop[b.Index] = t.symBr
 	}
 	pred := fr.block
 	fr.prev = pred
